@@ -36,11 +36,12 @@ const (
 	stExited
 	stPanicked
 	stKilled
-	stSpawned // parked right after spawning a child (a scheduling point inside a transition: never stalled)
+	stUnhooked // durably blocked in a channel operation of the interpreter that no hook announces
+	stSpawned  // parked right after spawning a child (a scheduling point inside a transition: never stalled)
 	stLost    // released after cancellation and never parked again (blocked in a heartbeat/monitor send)
 )
 
-var stateName = map[tstate]string{stRunning: "running", stStep: "step", stOp: "op", stAfter: "after", stExited: "exited", stPanicked: "panicked", stKilled: "killed", stLost: "lost", stSpawned: "spawned"}
+var stateName = map[tstate]string{stRunning: "running", stStep: "step", stOp: "op", stAfter: "after", stExited: "exited", stPanicked: "panicked", stKilled: "killed", stLost: "lost", stSpawned: "spawned", stUnhooked: "unhooked"}
 
 var kindName = map[process.SimOpKind]string{
 	process.SimSend: "send", process.SimRecv: "recv", process.SimRecvRaw: "recvraw",
@@ -60,6 +61,7 @@ type task struct {
 	msg    string
 	prio   int64
 	after  process.SimOpResult
+	goid   string // "goroutine N" of the task's goroutine (to find it in a stack dump)
 }
 
 // Config is everything that decides one simulated run besides the program.
@@ -124,6 +126,7 @@ type Result struct {
 	DeadCount    uint64
 	Diverged     string // replay could not follow the recorded schedule
 	MonitorStall string // a process goroutine is stuck in a monitor notification (monitor wedged)
+	Unhooked     []string // process goroutines found durably blocked in an un-announced channel operation
 }
 
 type sched struct {
@@ -166,6 +169,11 @@ func (s *sched) Spawn(p *process.Process, re *process.RuntimeEnvironment, run fu
 	s.logf("spawn %s by %s", t.id, par.id)
 	s.mu.Unlock()
 	go func() {
+		var hdr [64]byte
+		n := runtime.Stack(hdr[:], false)
+		if f := strings.Fields(string(hdr[:n])); len(f) >= 2 {
+			t.goid = f[0] + " " + f[1]
+		}
 		defer func() {
 			r := recover()
 			s.mu.Lock()
@@ -612,6 +620,13 @@ func (s *sched) run() {
 					t.state = stLost
 					r.Lost++
 					r.MonitorStall = fmt.Sprintf("%s is blocked in a monitor notification after %q at step %d: the monitor goroutine no longer receives", t.id, c.desc, r.Steps)
+				} else if where := blockedInInterpreter(t.goid); where != "" {
+					// the goroutine is durably blocked in a channel operation of package process that
+					// no hook announces (the tree under test does something the model has no
+					// transition for): it is a real state of the system - the process waits there -
+					// and is reported as such by the progress/determinism oracles
+					t.state = stUnhooked
+					r.Unhooked = append(r.Unhooked, fmt.Sprintf("%s after %q at step %d: %s", t.id, c.desc, r.Steps, where))
 				} else {
 					r.ModelErrors = append(r.ModelErrors, fmt.Sprintf("MODEL MISMATCH: %s neither parked nor finished after %q at step %d", t.id, c.desc, r.Steps))
 				}
@@ -758,6 +773,42 @@ func Run(t *testing.T, src string, cfg Config) *Result {
 	return res
 }
 
+// blockedInInterpreter: is the goroutine durably blocked in a channel operation whose innermost
+// non-runtime frame is interpreter code (package grits/process, not a hook)? Returns that frame.
+func blockedInInterpreter(goid string) string {
+	if goid == "" {
+		return ""
+	}
+	buf := make([]byte, 1<<20)
+	n := runtime.Stack(buf, true)
+	for _, g := range strings.Split(string(buf[:n]), "\n\n") {
+		if !strings.HasPrefix(g, goid+" ") {
+			continue
+		}
+		head := g
+		if i := strings.Index(g, "\n"); i > 0 {
+			head = g[:i]
+		}
+		if !(strings.Contains(head, "chan send") || strings.Contains(head, "chan receive") || strings.Contains(head, "select")) || !strings.Contains(head, "durable") {
+			return ""
+		}
+		for _, l := range strings.Split(g, "\n")[1:] {
+			l = strings.TrimSpace(l)
+			if strings.HasPrefix(l, "runtime.") || strings.HasPrefix(l, "/") || l == "" {
+				continue
+			}
+			if strings.HasPrefix(l, "grits/process.") && !strings.Contains(l, "grits/process.sim") {
+				if i := strings.Index(l, "("); i > 0 {
+					return l[:strings.LastIndex(l, "(")]
+				}
+				return l
+			}
+			return ""
+		}
+	}
+	return ""
+}
+
 // blockedInMonitor: is some goroutine blocked inside a monitor notification (a send on the
 // monitor's unbuffered channel)?
 func blockedInMonitor() bool {
@@ -816,5 +867,5 @@ func (r *Result) PrintMultiset() []string {
 
 // Complete: the run reached quiescence by itself (no budget, no cancellation, no panic).
 func (r *Result) Complete() bool {
-	return r.Accepted && !r.Budget && !r.Cancelled && len(r.Errors) == 0 && r.QuiescentAt >= 0
+	return r.Accepted && !r.Budget && !r.Cancelled && len(r.Errors) == 0 && r.QuiescentAt >= 0 && len(r.Unhooked) == 0 && r.MonitorStall == ""
 }
